@@ -29,6 +29,7 @@ def check(chk, thorough=False):
     chk.run('C17.h', 'R-GUARD', 'a transfer awaits its acknowledgement only once its END segment is out: a premature final XFER_ACK finds nothing to finish (= C18.d)', lambda ob: __import__('sa.props.c18', fromlist=['c18d']).c18d(tree, ob), floor=7)
     chk.run('C17.i', 'R-FLOW', 'what this side sends is its messages one after the other: the transmit buffer is only appended to (a reply is never put in front of octets already queued) (= C01.b)', lambda ob: __import__('sa.props.c01', fromlist=['c01b']).c01b(tree, ob), floor=7)
     chk.run('C17.j', 'R-FRESH', 'a peer message about a transfer ID touches this session only: the transfer maps and queues are created per contact object, never shared through the class (= C01.g)', lambda ob: __import__('sa.props.c01', fromlist=['c01g']).c01g(tree, ob), floor=6)
+    chk.run('C17.k', 'R-SCHEMA', 'a header of an unsupported version is refused, not tripped over: every length-prefixed field of every header / message class is measured as octets (= C07.c)', lambda ob: __import__('sa.props.c07', fromlist=['c07c']).c07c(tree, ob), floor=6)
     chk.run('C17.e', 'R-FLOW', 'peer-driven handlers change TX state only for the transfer they looked up by the peer id', lambda ob: c17e(tree, ob), floor=3)
 
 
@@ -349,9 +350,44 @@ def peer_enum_lookups(tree, ob):
     ob.site(SESS, tree.klass(SESS, 'Messenger'), 'message handlers make no unguarded enumeration lookup of a peer value ({} guarded)'.format(n))
 
 
+def _close_survives_socket_errors(tree, ob):
+    ''' closing is the answer to every fatal peer mistake, and it runs inside the callback that found the mistake.  The
+    peer may already have gone (reset): shutdown() of such a socket fails with an OSError that is no ConnectionError
+    (ENOTCONN).  The handler around it covers OSError as a whole, else the close itself escapes the callback with the
+    socket still open and the agent never told. '''
+    from ..cfg import handler_names
+    WIDE = ('error', 'OSError', 'IOError', 'EnvironmentError', 'Exception', 'BaseException')
+    fv = FuncView(tree, SESS, 'Connection.close')
+    n = 0
+    for c in calls_in(fv.func):
+        if not (isinstance(c.func, ast.Attribute) and c.func.attr == 'shutdown'):
+            continue
+        n += 1
+        found = None
+        prev = c
+        cur = getattr(c, '_parent', None)
+        while cur is not None and cur is not fv.func:
+            if isinstance(cur, ast.Try) and any(prev is st or prev in ast.walk(st) for st in cur.body):
+                found = found or cur
+                if any((nm or 'BaseException').split('.')[-1] in WIDE for h in cur.handlers for nm in handler_names(h)):
+                    found = True
+                    break
+            prev = cur
+            cur = getattr(cur, '_parent', None)
+        if found is True:
+            ob.site(SESS, c, 'Connection.close: a failing shutdown() is survived (handler covers OSError)')
+        elif found is not None:
+            ob.violate(SESS, fv.qual, 'except ' + ', '.join(str(nm) for h in found.handlers for nm in handler_names(h)), 'the handler around shutdown() names some socket errors only: for a peer that reset the connection '
+                       'shutdown() fails with ENOTCONN (an OSError outside that list), the error leaves close() and the receive callback, the socket stays open and the agent is never told', found.handlers[0], sure=True)
+        else:
+            ob.violate(SESS, fv.qual, src(c), 'shutdown() of the socket is not guarded: for a peer that has already gone it raises out of close()', c)
+    ob.require(n >= 1, 'shutdown() in Connection.close')
+
+
 def c17a(tree, ob):
     _stop_after_close(tree, ob)
     _peer_text(tree, ob)
+    _close_survives_socket_errors(tree, ob)
     peer_enum_lookups(tree, ob)
     roots = _roots(tree)
     ob.require(len(roots) >= 6, 'expected at least six event-loop callbacks in session.py, found {}'.format(sorted(roots)))
